@@ -81,7 +81,25 @@ func runC03(c *Ctx) {
 	s, t := c.S, c.T
 	mode := allModes[int(c.Run)%len(allModes)]
 	c.SetPlan("mode", mode)
-	w := newWorld(c, mode, "srv")
+	// in some runs a pass-through middleware spends scheduler steps on both sides of the chain, so
+	// that requests of different peers overlap between "the answer exists" and "the answer is encoded"
+	var srvOpts []mcp.ServerOption
+	var sseOpts []mcp.SSEOption
+	if t.Bool(40) {
+		mw := func(next mcp.HandlerFunc) mcp.HandlerFunc {
+			return func(ctx context.Context, req *mcp.JSONRPCRequest) (mcp.JSONRPCMessage, error) {
+				s.Yield("mw#before")
+				res, err := next(ctx, req)
+				s.Yield("mw#after")
+				s.Yield("mw#after2")
+				return res, err
+			}
+		}
+		srvOpts = append(srvOpts, mcp.WithMiddleware(mw))
+		sseOpts = append(sseOpts, mcp.WithSSEMiddleware(mw))
+		c.SetPlan("middleware", true)
+	}
+	w := newWorldOpts(c, mode, "srv", srvOpts, sseOpts)
 	w.register(func(r registrar) { registerC03(c, r, w.Count) })
 	s.Net.Faults = sim.NetFaults{ShortRead: t.Pick(0, 20)}
 	inputs := append(append(genMutations("m"), genGarbage("g")...), genOutcomes("o")...)
@@ -129,6 +147,43 @@ func runC03(c *Ctx) {
 	for _, a := range s.WaitTasks(25*time.Minute, tasks...) {
 		s.Violate("C03|stuck|mode="+mode, "%s did not finish", a.Name)
 	}
+	// ---- the same fault from several peers at the same moment ----
+	// 2-4 further peers send requests of one error class with ids of their own at once; each answer
+	// must be the well-formed answer to *that* peer's request (its id, the code of the class)
+	classes := []struct {
+		name string
+		code int
+		make func(id string) []byte
+	}{
+		{"unknown-method", -32601, func(id string) []byte { return rpcReq(id, "verif/unknown", nil) }},
+		{"unknown-method", -32601, func(id string) []byte { return rpcReq(id, "tools/call2", map[string]interface{}{"name": "ok"}) }},
+		{"bad-params", -32602, func(id string) []byte { return rpcReq(id, "tools/call", map[string]interface{}{"name": 7}) }},
+		{"bad-params", -32602, func(id string) []byte { return rpcReq(id, "prompts/get", map[string]interface{}{}) }},
+	}
+	cls := classes[t.Draw(len(classes))]
+	nStorm := 2 + t.Draw(3)
+	c.SetPlan("storm", fmt.Sprintf("%d x %s", nStorm, cls.name))
+	var storm []*sim.Task
+	for k := 0; k < nStorm; k++ {
+		peer, err := newRawPeer(c, w, fmt.Sprintf("storm%d", k), false)
+		if err != nil {
+			s.Violate("C03|handshake|mode="+mode, "raw peer handshake failed: %v", err)
+			return
+		}
+		storm = append(storm, s.Go(fmt.Sprintf("storm%d", k), func() {
+			for i := 0; i < 2; i++ {
+				id := fmt.Sprintf("storm-%d-%d", k, i)
+				in := genInput{Desc: "storm " + cls.name, Raw: cls.make(id), IsRequest: true, ID: `"` + id + `"`, Class: cls.name}
+				r := peer.exchange(in.Raw, nil)
+				c03Judge(c, mode, peer.kind, in, r)
+			}
+			peer.close()
+		}))
+	}
+	for _, a := range s.WaitTasks(25*time.Minute, storm...) {
+		s.Violate("C03|stuck|mode="+mode, "%s did not finish", a.Name)
+	}
+	s.Probe("c03.storm." + cls.name)
 	s.Probe("c03.mode." + mode)
 }
 
